@@ -22,6 +22,8 @@ def plain_minors(gene):
     for M, a in gene.alleles.items():
         if a.cn_config != "1":
             continue
+        if any("ins" in m.op[3:] and m.op.startswith("del") for m in a.func_muts):
+            continue      # deletion-insertions are not among the variant kinds the property lists for VCF input
         for mi in sorted(a.minors):
             out.append((M, mi))
     return out
@@ -122,10 +124,12 @@ class C16(Check):
         return 1
 
     def specs(self):
-        a = [worlds.WorldSpec(("+", "-"), False, False, 0, "rich")]
+        a = [worlds.WorldSpec(("+", "-"), False, False, 0, "richd")]
+        shipped = [("shipped", "slco1b1"), ("shipped", "nat2"), ("shipped", "tpmt"), ("shipped", "cyp2c19")]
         if self.tier == "thorough":
-            a += [worlds.WorldSpec(("-", "+"), True, True, 1, "rich"), ("shipped", "slco1b1"), ("shipped", "nat2"),
-                  ("shipped", "tpmt"), ("shipped", "cyp2c19")]
+            a += [worlds.WorldSpec(("-", "+"), True, True, 1, "richd")] + shipped
+        else:
+            a += [shipped[self.seed % 4]]
         return a
 
     def initial_states(self):
@@ -136,6 +140,8 @@ class C16(Check):
                 mins = plain_minors(gene)
                 ref = mins[0]
                 for i, a in enumerate(mins):
+                    if self.tier == "quick" and spec[0] == "shipped" and i % max(1, len(mins) // 15):
+                        continue
                     yield (spec, build, (ref, a), DEFAULT_ENC)
                     yield (spec, build, (a, a), DEFAULT_ENC)
                     if spec[0] != "shipped":
